@@ -159,6 +159,16 @@ def check(prog, rep):
                     lits = [e for e in _idx(n) if isinstance(e, ast.Constant) and isinstance(e.value, int) and not isinstance(e.value, bool)]
                     if lits:
                         rep.ob('I.no-literal-node-index', f, n, False, 'connection matrix `%s` is indexed with the literal node position %s' % (n.value.id, lits[0].value), line=n.lineno)
+    # index arrays that are allocated as zeros and used as node indices must be completely overwritten before use: an unfilled
+    # slot is the literal node 0 (visiting-order array of the Brandes routines; obligations shared with C08)
+    from . import C08
+    from ..core.report import Report
+    scratch = Report('C04', quiet=True)
+    C08.check(prog, scratch)
+    for o in scratch.obs:
+        if o.rule.startswith('Q.'):
+            rep.ob('I.order-array-has-no-default-node.' + o.rule[2:], (o.module, o.function), o.construct, o.ok,
+                   (o.why + ' -- unfilled slots of the zero-initialised order array denote node 0, which makes the result depend on the numbering') if not o.ok else '', line=o.line)
     rep.ob('I.no-literal-node-index', ('bct/algorithms', '8 anchored modules'), '%d subscripts of connection-matrix parameters inspected' % n_sub, True, '', line=0)
     rep.ob('L.no-cross-node-flow-dependence', ('bct/algorithms', '8 anchored modules'), '%d node loops in %d deterministic routines inspected' % (n_loops, n_funcs), True, '', line=0)
     rep.stat('node_loops_inspected', n_loops)
